@@ -315,7 +315,9 @@ class MarshalSerializer(SerializerBase):
 
     def dumpsCall(self, obj, method, vargs, kwargs):
         vargs = [self.convert_obj_into_marshallable(value) for value in vargs]
-        kwargs = {key: self.convert_obj_into_marshallable(value) for key, value in kwargs.items()}
+        if kwargs is not None:
+            # batch calls and attribute access are sent without keyword arguments (None)
+            kwargs = {key: self.convert_obj_into_marshallable(value) for key, value in kwargs.items()}
         return marshal.dumps((obj, method, vargs, kwargs))
 
     def dumps(self, data):
